@@ -40,7 +40,7 @@ def main():
         if not ok_apply:
             res.append((mu["name"], "APPLY-FAIL"))
             continue
-        env = dict(os.environ, RACTOR_REPO=d)
+        env = dict(os.environ, RACTOR_REPO=d, VERIF_EVIDENCE_DIR=os.path.join(VERIF, ".cache", "scratch-evidence"))
         outcome = []
         for prop in mu["props"]:
             pr = subprocess.run([os.path.join(VERIF, "check"), prop], env=env, stdout=subprocess.PIPE, stderr=subprocess.STDOUT, text=True)
